@@ -136,6 +136,27 @@ def coherent (cfg : Cfg) : Option Nat → List In → Bool
      | some t => tagOf x == t
      | none => true) && coherent cfg (openAfter cfg cur x) r
 
+/-! ### join_template: the per-event classifier bits its closures amount to -/
+
+/-- plain view of a template event: `startOK` = some template's StartCheck accepts a string
+    value (and that template becomes current), `contOK` = the current template's ContinueCheck,
+    negated when the template says so (false where `nextCheck` is never reached) -/
+def resolve (tcfg : TCfg) : Int → List TIn → List In
+  | _, [] => []
+  | cur, .timeout t :: r => .timeout t :: resolve tcfg cur r
+  | cur, .ev e :: r =>
+    let isStr := match JTree.dig e.root tcfg.path with
+      | some node => node.isStr
+      | none => false
+    let fi := if isStr then firstIdx e.starts 0 else none
+    match fi with
+    | some i => .ev (e.plain true false) :: resolve tcfg (i : Nat) r
+    | none =>
+      let c := match nextCheck tcfg cur e with
+        | .ok b => b
+        | .error _ => false
+      .ev (e.plain false c) :: resolve tcfg cur r
+
 /-! ### executable oracle applied to the implementation's observed result -/
 
 def oevEq (a b : OEv) : Bool := a.tag == b.tag && a.root.toToks == b.root.toToks
